@@ -31,6 +31,7 @@ def _run(linked, fname, args, gvals, gnames):
     except symx.PathTimeout:
         raise
     except Exception as e:  # noqa: BLE001 -- outcome of the code under analysis
+        symx.reraise_watchdog(e)
         return Failure(e), None
 
 
